@@ -72,6 +72,46 @@ def documented_forms():
     yield ("doc", "null-field-override"), [("let", "t", T(("a", ("null",)))), ("let", "r", ("copy", SYM("t"), [("a", I(1))]))]
 
 
+RAW_FORMS = [
+    ("include-str-concat", 'let r = "#!" + include str "./c07data.txt";'),
+    ("include-str-cast", 'let r = int(include str "./c07data.txt") + 1;'),
+    ("include-b64-concat", 'let r = "b:" + include b64 "./c07data.txt";'),
+    ("include-json-bound", 'let j = include json "./c07data.json";\nlet r = j;'),
+    ("include-json-field", 'let j = include json "./c07data.json";\nlet r = j.v;'),
+    ("include-json-field-inline", 'let r = (include json "./c07data.json").v;'),
+    ("include-json-arithmetic", 'let r = 1 + include json "./c07num.json";'),
+    ("include-json-list-index", 'let r = (include json "./c07list.json").0;'),
+    ("include-yaml-field", 'let y = include yaml "./c07data.yaml";\nlet r = y.v + 1;'),
+    ("include-toml-field", 'let t = include toml "./c07data.toml";\nlet r = t.v;'),
+]
+RAW_FILES = {"c07data.txt": "41", "c07data.json": '{"v": 41}', "c07num.json": "41", "c07list.json": "[41, 42]", "c07data.yaml": "v: 41\n", "c07data.toml": "v = 41\n"}
+
+
+def raw_category(name, src, srv):
+    """documented forms that need data files: differential only (no reference interpreter)"""
+    d = scratch_dir()
+    for fn, t in RAW_FILES.items():
+        fp = os.path.join(d, fn)
+        if not os.path.exists(fp):
+            with open(fp, "w") as f:
+                f.write(t)
+    ev = srv.req({"op": "eval", "src": src, "cwd": d})
+    if "ok" not in ev:
+        return "eval-fails(skipped)", None
+    path = os.path.join(d, "raw%d_%d.ucg" % (os.getpid(), next(_counter)))
+    with open(path, "w") as f:
+        f.write(src + "\n")
+    try:
+        b = srv.req({"op": "build", "path": path})
+    finally:
+        os.unlink(path)
+    if "ok" in b:
+        return ("evaluates+builds-same", None) if strip_pkg(b["ok"]) == strip_pkg(ev["ok"]) else ("BUILD-VALUE-DIFFERS", "build-value-differs")
+    if "err" in b and "Type error" in b["err"]:
+        return "CHECKER-REJECTS", "checker-rejects: " + checker_msg(b["err"])
+    return "BUILD-FAILS", "build-fails: " + refsem.classify_error(b.get("err", ""))
+
+
 _DIR = None
 
 
@@ -257,6 +297,13 @@ def run(ctx):
     viol.sort(key=lambda v: (len(v[1]), v[1]))
     srv = core.Server()
     seen = {}
+    for name, src in RAW_FORMS:
+        oc, cat = raw_category(name, src, srv)
+        ctx.count(1, 0 if oc.startswith("eval-fails") else 1)
+        ctx.outcome("doc-with-data-file:" + oc)
+        if cat:
+            ctx.violation("%s :: %s" % (cat, name), "%s although `%s` evaluates" % (cat, src.replace("\n", " ")),
+                          {"kind": "raw", "name": name, "src": src, "category": cat})
     budget = 1500
     try:
         for ast_s, src, oc, detail in viol:
@@ -285,6 +332,13 @@ def run(ctx):
 
 def replay(case):
     import ast as _ast
+    if case.get("kind") == "raw":
+        srv = core.Server()
+        try:
+            oc, cat = raw_category(case["name"], case["src"], srv)
+        finally:
+            srv.close()
+        return cat is None, {"category_now": cat}
     st = _ast.literal_eval(case["ast"])
     srv = core.Server()
     try:
